@@ -968,7 +968,9 @@ func checkNormalizeAllPhases(c *Ctx) {
 }
 
 // checkExactDefaults is R01g.
-func checkExactDefaults(c *Ctx) {
+func checkExactDefaults(c *Ctx) { checkExactDefaultsRule(c, "R01g") }
+
+func checkExactDefaultsRule(c *Ctx, rule string) {
 	n := 0
 	c.AllFuncs(false, func(fi *FuncInfo) {
 		if fi.Pkg.PkgPath != pSqlite || !strings.HasSuffix(c.Fset.Position(fi.Decl.Pos()).Filename, "/diff.go") {
@@ -1026,11 +1028,11 @@ func checkExactDefaults(c *Ctx) {
 			if pos == token.NoPos {
 				pos = obj.Pos()
 			}
-			c.Check("R01g", fi.Name+"|"+obj.Name()+" compared exactly", pos, bad == "", "%s: the unquoted default literal %s is folded by %s before it is compared: defaults that differ only in case (or blanks) are reported as equal, no change is planned and the database keeps the old default", fi.Name, obj.Name(), bad)
+			c.Check(rule, fi.Name+"|"+obj.Name()+" compared exactly", pos, bad == "", "%s: the unquoted default literal %s is folded by %s before it is compared: defaults that differ only in case (or blanks) are reported as equal, no change is planned and the database keeps the old default", fi.Name, obj.Name(), bad)
 		}
 	})
 	if n == 0 {
-		c.Unresolved("R01g", "sqlx.Unquote results in the SQLite differ (expected in diff.defaultChanged)")
+		c.Unresolved(rule, "sqlx.Unquote results in the SQLite differ (expected in diff.defaultChanged)")
 	}
 }
 
